@@ -223,6 +223,8 @@ func main() {
 			kindWsPeer(id, args)
 		case "scenario":
 			kindScenario(id, args)
+		case "scenario_meta":
+			kindScenarioMeta(id, args)
 		case "arith":
 			emit(id, "n/a")
 		default:
